@@ -1402,6 +1402,36 @@ FormatterToXML::accumCommentData(const XalanDOMChar*    data)
 
 
 
+bool
+FormatterToXML::isReferenceInCDATA(XalanDOMChar     ch) const
+{
+    if(ch > m_maxCharacter)
+    {
+        return true;
+    }
+    else if(getOutputFormat() != OUTPUT_METHOD_XML)
+    {
+        // FormatterToHTML writes script and style elements through
+        // writeNormalizedChars() as well.
+        return false;
+    }
+    else
+    {
+        // A parser reads a literal CR (XML 1.1: also NEL and LSEP) as a
+        // line feed, and the control characters are either no characters
+        // at all (XML 1.0) or allowed as references only (XML 1.1).
+        return ch == XalanUnicode::charCR ||
+               (ch < 0x20 &&
+                ch != XalanUnicode::charHTab &&
+                ch != XalanUnicode::charLF) ||
+               (m_isXML1_1 == true &&
+                (ch == XalanUnicode::charLSEP ||
+                 (0x7F <= ch && ch <= 0x9F)));
+    }
+}
+
+
+
 void
 FormatterToXML::writeNormalizedChars(
             const XalanDOMChar  ch[],
@@ -1417,7 +1447,8 @@ FormatterToXML::writeNormalizedChars(
 
         if (XalanUnicode::charCR == c &&
             i + 1 < end &&
-            XalanUnicode::charLF == ch[i + 1])
+            XalanUnicode::charLF == ch[i + 1] &&
+            (isCData == false || isReferenceInCDATA(c) == false))
         {
             outputLineSep();
 
@@ -1427,8 +1458,16 @@ FormatterToXML::writeNormalizedChars(
         {
             outputLineSep();
         }
-        else if(isCData == true && c > m_maxCharacter)
+        else if(isCData == true && isReferenceInCDATA(c) == true)
         {
+            if(c < 0x20 &&
+               c != XalanUnicode::charCR &&
+               m_isXML1_1 == false)
+            {
+                // Not a character of XML 1.0, not even as a reference.
+                throwInvalidCharacterException(c, getMemoryManager());
+            }
+
             if(i != 0)
             {
                 accumContent(s_dtdCDATACloseString, 0, s_dtdCDATACloseStringLength);
@@ -1689,7 +1728,7 @@ FormatterToXML::cdata(
             if(m_stripCData == false)
             {
                 if(length >= 1 &&
-                   ch[0] <= m_maxCharacter)
+                   isReferenceInCDATA(ch[0]) == false)
                 {
                     // "<![CDATA["
                     accumContent(XalanUnicode::charLessThanSign);
@@ -1709,7 +1748,7 @@ FormatterToXML::cdata(
             if(m_stripCData == false)
             {
                 if(length >= 1 &&
-                   ch[length - 1] <= m_maxCharacter)
+                   isReferenceInCDATA(ch[length - 1]) == false)
                 {
                     accumContent(XalanUnicode::charRightSquareBracket);
                     accumContent(XalanUnicode::charRightSquareBracket);
